@@ -2,6 +2,7 @@ package main
 
 import (
 	"fmt"
+	"hash/fnv"
 	"os"
 	"path/filepath"
 	"sort"
@@ -99,6 +100,27 @@ func runHistoryFrom(c *core.Ctx, r *core.Result, ho histOpt, cur *tree.Tree, edi
 		var fs fsutil.FS
 		if ho.Synthetic {
 			ro.Src = cur.Clone()
+			if xr := core.NewRand(core.Mix(c.Seed, "hist-foreign-xattr", c.Index)); xr.P(1, 4) {
+				// attributes of a name space the destination file system does
+				// not know (what a btrfs or ceph source reports): they cannot
+				// be stored, everything else of the entry still is. The same
+				// files carry them in every round (identity does not include
+				// attributes).
+				for i := range ro.Src.Entries {
+					e := &ro.Src.Entries[i]
+					h := fnv.New64a()
+					h.Write([]byte(e.Path))
+					if e.Type == tree.File && e.LinkTo == "" && ro.Src.GroupOf(e.Path) == "" && h.Sum64()%3 == 0 {
+						x := map[string][]byte{}
+						for k, v := range e.Xattrs {
+							x[k] = v
+						}
+						x["btrfs.compression"] = []byte("zstd")
+						e.Xattrs = x
+						r.Count("announced_entries_with_an_attribute_the_destination_cannot_store", 1)
+					}
+				}
+			}
 			sf := newSynthFSReaders(ro.Src, R)
 			if ho.SlowFiles {
 				gr := R.Fork()
